@@ -265,8 +265,11 @@ class UTPM(Ring, RawAlgorithmsMixIn):
         # print 'x=', x
         # print 'xr=',xr
         # print 'x.dtype', x.dtype
-        D,P = xr[0].data.shape[:2]
-        shp = xr[0].data.shape[2:]
+        # (degree, directions and element shape are those of the first polynomial entry: plain
+        # numbers may come first)
+        proto = next((xi for xi in xr if isinstance(xi, UTPM)), xr[0])
+        D,P = proto.data.shape[:2]
+        shp = proto.data.shape[2:]
 
         if not isinstance(shp, tuple): shp = (shp,)
         if not isinstance(x_shp, tuple): x_shp = (x_shp,)
